@@ -37,6 +37,8 @@ type tierCfg struct {
 	muxCases         int // 0 = all
 	randomBytes      int
 	randomCps        int
+	boundaryDocs     int // documents whose numbers are replaced by boundary values
+	boundaryK        int // values per number position
 }
 
 var tiers = map[string]tierCfg{
@@ -44,11 +46,13 @@ var tiers = map[string]tierCfg{
 		valid: 150, truncSmall: 6, truncLarge: 0, truncTestdata: 400,
 		confuseSmall: 3, confuseSmallK: 1, confuseLarge: 0, confuseTestdata: 120, confuseTestdataK: 1,
 		wellknownExtra: 60, noheaderDocs: 3, shuffles: 20, muxCases: 160, randomBytes: 100, randomCps: 120,
+		boundaryDocs: 4, boundaryK: 2,
 	},
 	"thorough": {
 		valid: 12000, truncSmall: 25, truncLarge: 15, truncTestdata: 0,
-		confuseSmall: 40, confuseSmallK: 8, confuseLarge: 40, confuseTestdata: 0, confuseTestdataK: 8,
+		confuseSmall: 40, confuseSmallK: 8, confuseLarge: 40, confuseTestdata: 0, confuseTestdataK: 4,
 		wellknownExtra: 20000, noheaderDocs: 150, shuffles: 1500, muxCases: 0, randomBytes: 15000, randomCps: 15000,
+		boundaryDocs: 120, boundaryK: 4,
 	},
 }
 
@@ -175,8 +179,29 @@ func buildInputs(seed uint64, tier string) ([]input, error) {
 	}
 	for i := 0; i < cfg.shuffles; i++ {
 		d := genDoc(r, genCfg{messy: []int{0, 0, 30}[i%3], small: i%2 == 0})
-		shuffle(r, d.secs)
+		if i%4 == 3 { // a statement twice (duplicated names, ids, definitions) instead of a new order
+			j := r.intn(len(d.secs))
+			k := r.intn(len(d.secs) + 1)
+			secs := append([]section{}, d.secs[:k]...)
+			secs = append(secs, d.secs[j])
+			secs = append(secs, d.secs[k:]...)
+			d.secs = secs
+		} else {
+			shuffle(r, d.secs)
+		}
 		b.add("noheader", d.bytes())
+	}
+
+	// numbers replaced by boundary values (sizes, start bits, ids, ranges, switch values)
+	r = root.sub("boundary")
+	for i := 0; i < cfg.boundaryDocs; i++ {
+		var text []byte
+		if i%2 == 0 {
+			text = smallDoc(r, i)
+		} else {
+			text = genDoc(r, genCfg{messy: messyFor(i)}).bytes()
+		}
+		boundary(b, r, text, cfg.boundaryK)
 	}
 
 	// multiplexing corner cases
@@ -325,6 +350,12 @@ func confuse(b *builder, r *rng, text []byte, positions, perPos int) {
 			toks = append(toks, s)
 		}
 	}
+	var idents []string
+	for _, t := range toks {
+		if t.Kind == 3 {
+			idents = append(idents, string(text[t.Start:t.End]))
+		}
+	}
 	sel := r.sample(len(toks), len(toks))
 	if positions > 0 {
 		sel = r.sample(len(toks), positions)
@@ -335,7 +366,7 @@ func confuse(b *builder, r *rng, text []byte, positions, perPos int) {
 		own := tokClass(t.Kind, raw)
 		var classes []string
 		for _, c := range confuseClasses {
-			if c != own {
+			if c != own || c == "ident" { // an identifier may also become another identifier
 				classes = append(classes, c)
 			}
 		}
@@ -347,6 +378,8 @@ func confuse(b *builder, r *rng, text []byte, positions, perPos int) {
 			var repl string
 			if c == "keyword" {
 				repl = pick(r, allKeywords)
+			} else if c == "ident" && len(idents) > 0 && r.chance(50) {
+				repl = pick(r, idents) // a name of the same file: duplicates and dangling references
 			} else {
 				repl = pick(r, confusePool[c])
 			}
@@ -355,6 +388,49 @@ func confuse(b *builder, r *rng, text []byte, positions, perPos int) {
 			nt = append(nt, repl...)
 			nt = append(nt, text[t.End:]...)
 			b.add("confuse", nt)
+		}
+	}
+}
+
+var boundaryNumbers = []string{"0", "1", "2", "7", "8", "9", "15", "16", "17", "31", "32", "33", "63", "64", "65", "255", "256", "511", "512", "513",
+	"1023", "1024", "1025", "2047", "2048", "65535", "65536", "2147483647", "2147483648", "4294967295", "-1", "-2147483648",
+	"0.5", "1e-300", "1e300", "1.7976931348623157e308", "-1e308", "9223372036854775807", "-9223372036854775808", "0.1", "3.999", "4294967294"}
+
+// boundary replaces each number, range and mux-indicator token in turn by perPos boundary values.
+func boundary(b *builder, r *rng, text []byte, perPos int) {
+	spans, ok := dbccase.TokenSpans(text)
+	if !ok {
+		return
+	}
+	for _, t := range spans {
+		if t.Kind != 4 && t.Kind != 5 && t.Kind != 6 {
+			continue
+		}
+		for k := 0; k < perPos; k++ {
+			var repl string
+			switch t.Kind {
+			case 4:
+				repl = pick(r, boundaryNumbers)
+			case 5:
+				lo, hi := pick(r, boundaryNumbers[:30]), pick(r, boundaryNumbers[:30])
+				repl = lo + "-" + hi
+			default:
+				repl = "m" + pick(r, boundaryNumbers[:30])
+				if text[t.End-1] == 'M' {
+					repl += "M"
+				}
+				if string(text[t.Start:t.End]) == "M" {
+					repl = "M"
+				}
+			}
+			if repl == string(text[t.Start:t.End]) {
+				continue
+			}
+			nt := make([]byte, 0, len(text)+len(repl))
+			nt = append(nt, text[:t.Start]...)
+			nt = append(nt, repl...)
+			nt = append(nt, text[t.End:]...)
+			b.add("boundary", nt)
 		}
 	}
 }
@@ -631,6 +707,7 @@ var corpus = []string{
 	"BU_: A\nBO_ 1 m : 8 A\n SG_ s : 0|8@1+ (1,0) [0|1] \"\" A\nBA_DEF_ BO_ \"GenMsgCycleTime\" ENUM \"a\",\"b\";\nBA_DEF_DEF_ \"GenMsgCycleTime\" \"a\";\nBA_ \"GenMsgCycleTime\" BO_ 1 7;\n",
 	"BU_: A\nBO_ 1 m : 8 A\n SG_ a M : 0|2@1+ (1,0) [0|1] \"\" A\n SG_ c m0 : 4|2@1+ (1,0) [0|1] \"\" A\nSG_MUL_VAL_ 1 c a 0-4294967295;\n",
 	"BU_: A\nBO_ 1 m : 8 A\n SG_ a M : 0|2@1+ (1,0) [0|1] \"\" A\n SG_ c m0 : 4|2@1+ (1,0) [0|1] \"\" A\nSG_MUL_VAL_ 1 c a 4294967295-4294967295;\n",
+	"BU_: A\nBO_ 1 m : 8 A\n SG_ mx M : 0|2@1+ (1,0) [0|1] \"\" A\n SG_ a m3 : 2|4294967295@1- (1,2) [0|1] \"\" A\n",
 }
 
 func init() {
